@@ -194,6 +194,11 @@ fn convert_str_indices_slow(
             || end.is_none()
     );
     let len = len(s);
+    // A window which starts after the end of the string is empty whatever `end` is
+    // (`convert_indices` would clamp `start` to the length first).
+    if matches!(start, Some(start) if start > len.0 as i32) {
+        return None;
+    }
     let (start, end) = convert_indices(len.0 as i32, start, end);
     if start > end {
         return None;
